@@ -1,7 +1,7 @@
 """C07 — rendering accepted templates never panics; all references checked at add time (partial)."""
 import re
 from engine import (Tracer, EdgeFacts, find_aggs, find_calls, pl_str, pl_projs, callee_names, callee_def, name_matches,
-                    AnchorMissing, leaf_call_is, leaf_str, iter_operands, Report)
+                    AnchorMissing, leaf_call_is, leaf_str, iter_operands, Report, runs_every_iteration)
 import rrec
 
 EXPLANATION = (
@@ -303,9 +303,10 @@ def check_ref_d(crate, rep, cfg):
         leaves = tr.operand(t["args"][1])
         in_loop = any(bb in l for l in fin.loops())
         from_templates = bool(leaves) and all((l.kind == "param" and l.detail == 1 and ".templates" in l.projs) for l in leaves if l.kind != "cycle")
-        if in_loop and from_templates:
+        every, why = runs_every_iteration(fin, bb)
+        if in_loop and from_templates and every:
             ok = True
-    what = "finalize_templates validates every template of self.templates (call inside the loop over the map)"
+    what = "finalize_templates validates every template of self.templates on every call (unconditional call inside the loop over the map)"
     (rep.ok if ok else rep.bad)("C07.REF.d", key, fin.where(vcalls[0][0]) if vcalls else fin.where(0), what if ok else what + " — VIOLATED")
     # commit start is dominated by the `errors.is_empty()` true edge
     commit = [bb for bb, t in find_calls(fin, ["std::collections::HashMap::<K, V, S, A>::iter_mut", "std::collections::HashMap::<K, V, S>::iter_mut"])
